@@ -5,7 +5,9 @@ use crate::engine::{Engine, Fail, Job, JobCtx, Obs};
 use crate::ensure;
 use crate::fq::BuildCase;
 use crate::gens::{any_case, case_in_cell, Cell, Force};
+use proptest::prelude::*;
 use refmodel::codec::decode_plain;
+use refmodel::tables::classify;
 use refmodel::tables::{Level, Mode, LEVELS};
 use serde_json::Value;
 
@@ -155,6 +157,44 @@ pub fn run(e: &'static Engine) {
             jc.run_prop(4 << 20, &strat, total / shards / 16, |(c, _)| c.to_json(), |(c, fam), o| {
                 o.label("part:steered");
                 check(c, fam, o)
+            });
+        }));
+    }
+    e.par(jobs);
+    // A compact mode forced on input that does not fit its alphabet (lower-case text forced to Alphanumeric, text with
+    // one letter forced to Numeric ...): the crate documents a panic, and then there is no symbol and nothing to check -
+    // but IF a symbol comes back it must carry the input like any other, which it cannot in that mode.
+    let total: u32 = e.tier.pick(3200, 48000);
+    let shards = e.tier.pick(16u32, 64);
+    let mut jobs: Vec<Job> = Vec::new();
+    for _ in 0..shards {
+        jobs.push(Box::new(move |jc: &mut JobCtx| {
+            let strat = (
+                prop_oneof![
+                    2 => crate::gens::realistic_payload(),
+                    1 => proptest::collection::vec(b'a'..=b'z', 1..40),
+                    1 => crate::gens::with_token(proptest::collection::vec(b'0'..=b'9', 1..60).boxed()),
+                    1 => crate::gens::class_runs_of(24),
+                ],
+                any::<bool>(),
+                prop_oneof![Just(None), (0usize..4).prop_map(|l| Some(Level::from_index(l)))],
+                prop_oneof![3 => Just(None), 1 => (1usize..=40).prop_map(Some)],
+                prop_oneof![Just(None), (0u8..8).prop_map(Some)],
+                any::<u16>(),
+            )
+                .prop_map(|(input, numeric, level, version, mask, sel)| {
+                    let class = classify(&input);
+                    // the widest compact mode the input does NOT fit
+                    let mode = match (class, numeric) {
+                        (Mode::Byte, false) => Mode::Alphanumeric,
+                        (Mode::Byte, true) | (Mode::Alphanumeric, _) => Mode::Numeric,
+                        (Mode::Numeric, _) => Mode::Numeric,
+                    };
+                    BuildCase::new(input, crate::fq::Opts { mode: Some(mode), level, version, mask }).with_warm_sel(sel)
+                });
+            jc.run_prop(9 << 20, &strat, total / shards, |c| c.to_json(), |c, o| {
+                o.label("part:forced_mode_the_input_may_not_fit");
+                check(c, "unfit_forced_mode", o)
             });
         }));
     }
